@@ -27,8 +27,9 @@ file it was handed out for: a descriptor the library closed gives EBADF, a
 number that was closed and handed out again denotes the *new* object (a stale
 number kept by the library then aliases another map, as it would in reality).
 A loaded program keeps the maps it referred to at PROG_LOAD, whatever happens
-to the numbers afterwards.  `mmap(fd, size)` of an mmapable array map returns a memoryview
-aliasing the map's storage: Python and the program in the VM share memory.
+to the numbers afterwards.  `mmap(fd, size)` of an mmapable array map returns
+a memoryview aliasing the map's storage: Python and the program in the VM
+share memory.
 """
 import collections
 import contextlib
@@ -110,6 +111,8 @@ class SimKernel:
         self.cpu = cpu                  # CPU on which PROG_TEST_RUN runs
         self.buffers = {}               # address -> (object, length)
         self.overruns = []              # C10's monitor output
+        self.overrun_limit = None       # if set: from that many records on
+        #                                 a short buffer fails with EFAULT
         self.faults = []                # accesses through unregistered addresses
         self.fds = {}                   # fd -> ("map", BpfMap) | ("prog", insns)
         self.pins = {}                  # path -> ("map"|"prog", object)
@@ -182,6 +185,11 @@ class SimKernel:
         if have < need:
             self.overruns.append(dict(cmd=CMDNAME.get(cmd, cmd), need=need,
                                       have=have, what=what))
+            if self.overrun_limit is not None and \
+                    len(self.overruns) >= self.overrun_limit:
+                # (a caller iterating over a map with too short key buffers
+                # would never come to an end)
+                raise OSError(errno.EFAULT, "short user buffer")
         return min(have, need)
 
     def _read(self, cmd, what, addr, need):
